@@ -557,3 +557,73 @@ func indexOfWalkForm(p *Prog, g *GCNF) *GCNF {
 	}
 	return g
 }
+
+// selfTailRecAsLoop — a function that ends some of its paths with `return self(same arguments)` (the search loop of an
+// iterator's NextTo written as tail recursion: step, test, else "try again") is the loop `for { … }` over the same paths.
+// Only where every self-call hands on exactly the function's own parameters and is the last effect of its path, whose result
+// it returns (or a bare return for a result-less function). The paths move to a new cut entered unconditionally.
+func selfTailRecAsLoop(p *Prog, g *GCNF) *GCNF {
+	if g == nil || g.Undecided != "" || g.Fn == nil {
+		return g
+	}
+	self := p.FuncKey(g.Fn)
+	np := len(g.Fn.Params)
+	maxCut, nself := 0, 0
+	isSelf := func(t *Term) bool { return t.Op == "do" && t.Leaf == self }
+	for _, x := range g.GCs {
+		if x.From > maxCut {
+			maxCut = x.From
+		}
+		if x.From != 0 {
+			return g // already has loops: not this shape
+		}
+		for _, a := range x.Guards {
+			if a.any(isSelf) {
+				return g
+			}
+		}
+		for i, ef := range x.Effects {
+			if !ef.any(isSelf) {
+				continue
+			}
+			if i != len(x.Effects)-1 || !isSelf(ef) || len(ef.Args) != np {
+				return g
+			}
+			for j, a := range ef.Args {
+				if a.String() != "p:"+strconv.Itoa(j) {
+					return g
+				}
+			}
+			// the path returns the call's result(s), in order, or nothing
+			if x.Exit.Op != "return" {
+				return g
+			}
+			for k, r := range x.Exit.Args {
+				y := r
+				if y.Op == "ext" && y.Leaf == strconv.Itoa(k) && len(y.Args) == 1 {
+					y = y.Args[0]
+				}
+				if !(y.Op == "res" && len(y.Args) == 1 && y.Args[0].String() == ef.String()) {
+					return g
+				}
+			}
+			nself++
+		}
+	}
+	if nself == 0 {
+		return g
+	}
+	K := maxCut + 1
+	ks := strconv.Itoa(K)
+	out := &GCNF{Fn: g.Fn, NumPaths: g.NumPaths, Cuts: g.Cuts}
+	out.GCs = append(out.GCs, &GC{From: 0, Exit: &Term{Op: "goto", Leaf: ks}})
+	for _, x := range g.GCs {
+		y := &GC{From: K, Guards: x.Guards, Effects: x.Effects, Exit: x.Exit, Pos: x.Pos}
+		if n := len(x.Effects); n > 0 && isSelf(x.Effects[n-1]) {
+			y.Effects = x.Effects[:n-1]
+			y.Exit = &Term{Op: "goto", Leaf: ks}
+		}
+		out.GCs = append(out.GCs, y)
+	}
+	return out
+}
